@@ -557,8 +557,8 @@ Proof.
    | intros r o H; cbn in H; discriminate
    | intros o r []
    | intros _ r o; split; reflexivity
-   | intros; lia
-   | intros; lia
+   | intros; cbn; lia
+   | intros; cbn; lia
    | intros; reflexivity
    | intros r ps [p [Hd _]]; discriminate
    | intros r ps [p [Hd _]]; discriminate
@@ -613,6 +613,8 @@ Proof.
       destruct (c1 o0 c0 Hc) as (A & _). lia. }
   pose proof (Hown (n st) k Hm) as Ho.
   assert (Hr : runner_of (n st) s < n st) by (unfold runner_of; apply Nat.mod_upper_bound; lia).
+  change (proj s (filter (fun e : entry => N.eqb (rkey (snd e)) k) (flat_map (lookup_op (p_op (add_ack a p))) (seq 0 (n st)))) =
+          want (lookup_sr (p_sr (add_ack a p)) (runner_of (n st) s)) s k).
   rewrite (filter_key_flat_map (lookup_op (p_op (add_ack a p))) (owner (n st)) k (n st)).
   - apply Nat.ltb_lt in Ho. rewrite Ho. apply Nat.ltb_lt in Ho.
     destruct (lookup_in _ _ _ (all_in_spec _ _ Hallop _ Ho)) as [c [Hc Hfc]].
